@@ -96,9 +96,14 @@ func keyClass(k uint) string {
 	return "outbound"
 }
 
+// damageClass names the kind of record that was damaged; a damaged client
+// identifier dominates (it decides the outcome whatever else was damaged).
 func (w *World) damageClass() string {
 	var s []string
 	for _, d := range w.damaged {
+		if keyClass(d.key) == "clientid" {
+			return "clientid"
+		}
 		s = append(s, keyClass(d.key))
 	}
 	return strings.Join(s, "+")
